@@ -242,12 +242,31 @@ class KindFamily(Family):
               "f_or": lambda: f1() | f2(), "f_and": lambda: f1() & f2(),
               "f_or_l": lambda: (f1() | f2()) | f0(), "f_or_r": lambda: f0() | (f1() | f2()),
               "f_and_or": lambda: (f1() & f2()) | f0()}
+        from calgebra import intersection, union
+        kind = lambda x: "timeline" if isinstance(x, Timeline) else "filter" if isinstance(x, Filter) else "other"  # noqa: E731
+
+        def attempt(f):
+            try:
+                return kind(f())
+            except TypeError:
+                return "TypeError"
         l, r = mk[case["l"]](), mk[case["r"]]()
-        try:
-            res = (l | r) if case["op"] == "or" else (l & r)
-        except TypeError:
-            return ["TypeError"]
-        return ["timeline" if isinstance(res, Timeline) else "filter" if isinstance(res, Filter) else "other"]
+        out = attempt(lambda: (l | r) if case["op"] == "or" else (l & r))
+        # the documented helpers union(a, b) / intersection(a, b) are "equivalent to chaining | / &": the same
+        # operands must meet the same fate through them (also as the last of three operands)
+        helper = union if case["op"] == "or" else intersection
+        l2, r2 = mk[case["l"]](), mk[case["r"]]()
+        via = attempt(lambda: helper(l2, r2))
+        if via != out:
+            return {"err": f"{case['l']} {case['op']} {case['r']}: the operator gives {out}, the helper {helper.__name__}(a, b) gives {via}"}
+        if case["l"].startswith("t"):
+            l3, r3 = mk[case["l"]](), mk[case["r"]]()
+            via3 = attempt(lambda: helper(tl0(), l3, r3))
+            want3 = attempt(lambda: ((tl0() | mk[case["l"]]()) | mk[case["r"]]()) if case["op"] == "or"
+                            else ((tl0() & mk[case["l"]]()) & mk[case["r"]]()))
+            if via3 != want3:
+                return {"err": f"{helper.__name__}(t, {case['l']}, {case['r']}) gives {via3}, chaining the operator gives {want3}"}
+        return [out]
 
     def coq_case(self, case, obs):
         k = {sh: ("KTimeline" if sh.startswith("t") else "KFilter") for sh in self.SHAPES}
